@@ -5,6 +5,7 @@ import (
 	"context"
 	"fmt"
 	"net"
+	"runtime"
 	"sort"
 	"strings"
 	"sync"
@@ -207,6 +208,24 @@ func runCase(c Case) []ev.Violation {
 	var inflight, minGauge, maxExcess, started int64
 	stopSampler := make(chan struct{})
 	var sw sync.WaitGroup
+	// two more readers of the connection table in a tight loop, as status pages and the
+	// least-connections balancer read it under load (they keep reading a little after the last client
+	// has its answer: the last releases land then)
+	for k := 0; k < 2; k++ {
+		sw.Add(1)
+		go func() {
+			defer sw.Done()
+			for {
+				select {
+				case <-stopSampler:
+					return
+				default:
+				}
+				_ = r.S.Stats.GetConnectionStats()
+				runtime.Gosched()
+			}
+		}()
+	}
 	sw.Add(1)
 	go func() { // sample the gauges while the workload runs
 		defer sw.Done()
@@ -282,6 +301,7 @@ func runCase(c Case) []ev.Violation {
 		}()
 	}
 	wg.Wait()
+	time.Sleep(120 * time.Millisecond)
 	close(stopSampler)
 	sw.Wait()
 	// quiescence
@@ -503,9 +523,9 @@ var _ = strings.Join
 
 func TestC19(t *testing.T) {
 	defer rig.StopAll()
-	rec.SetRule("workloads of 1..64 concurrent clients x 1..6 requests through the full stack; every endpoint (<=3) has a fixed scripted outcome {ok, ok answered in two halves 250 ms apart, 500, 404, reset mid-body, stall mid-body, close mid-body (short of Content-Length), reset before headers, refuse}; proxy, Anthropic translated and passthrough routes (stream on/off), 3 balancers, 2 engines, optional client aborts (after the response headers, or 30 ms after sending while the backends take 120 ms to answer). Gauges are sampled during the run and at quiescence; collector (global and per endpoint), engine and translator counters are compared as deltas with the harness's own tally of client observations and backend-side attempts. Sub-check 'inflight': 1..64 simultaneous clients against never-seen endpoints that are dead (refuse / reset before any byte) or hold the request until released; once all requests are parked the gauges must be exact (hold = requests parked there, dead = 0). Sub-check 'rejected': 0..4 served requests followed by 1..6 requests Olla refuses itself (every endpoint offline, or a model nobody lists) on the translated, passthrough and proxy routes: none of the refused ones may be booked as a success by the translator or the collector, the translator total counts every request once. non-trivial = a failover-inducing backend and a mid-stream failing backend among >=8 concurrent clients; distinct by workload")
+	rec.SetRule("workloads of 1..64 concurrent clients x 1..6 requests through the full stack; every endpoint (<=3) has a fixed scripted outcome {ok, ok answered in two halves 250 ms apart, 500, 404, reset mid-body, stall mid-body, close mid-body (short of Content-Length), reset before headers, refuse}; proxy, Anthropic translated and passthrough routes (stream on/off), 3 balancers, 2 engines, optional client aborts (after the response headers, or 30 ms after sending while the backends take 120 ms to answer). Gauges are sampled during the run and at quiescence; collector (global and per endpoint), engine and translator counters are compared as deltas with the harness's own tally of client observations and backend-side attempts. Sub-check 'inflight': 1..64 simultaneous clients against never-seen endpoints that are dead (refuse / reset before any byte) or hold the request until released; once all requests are parked the gauges must be exact (hold = requests parked there, dead = 0). Sub-check 'bursts': 40..200 bursts of 4..24 concurrent requests while 2..6 goroutines read the connection table in a loop; after every burst the table must report zero within 2 s. Sub-check 'rejected': 0..4 served requests followed by 1..6 requests Olla refuses itself (every endpoint offline, or a model nobody lists) on the translated, passthrough and proxy routes: none of the refused ones may be booked as a success by the translator or the collector, the translator total counts every request once. non-trivial = a failover-inducing backend and a mid-stream failing backend among >=8 concurrent clients; distinct by workload")
 	rec.Assume("per-model counters are not recorded anywhere in the request path (RecordModelRequest has no caller), so they are trivially conserved and not judged")
-	if ev.Replay(t, rec, "workload", runCase) || ev.Replay(t, rec, "inflight", runFlight) || ev.Replay(t, rec, "rejected", runRejected) {
+	if ev.Replay(t, rec, "workload", runCase) || ev.Replay(t, rec, "inflight", runFlight) || ev.Replay(t, rec, "rejected", runRejected) || ev.Replay(t, rec, "bursts", runBursts) {
 		return
 	}
 	// fixed probes: clients that leave after the response headers while the answer is still on its way
@@ -518,4 +538,5 @@ func TestC19(t *testing.T) {
 	ev.Check(t, rec, "workload", rec.Pick(30, 400), genCase, runCase)
 	ev.Check(t, rec, "inflight", rec.Pick(30, 400), genFlight, runFlight)
 	ev.Check(t, rec, "rejected", rec.Pick(24, 200), genRejected, runRejected)
+	ev.Check(t, rec, "bursts", rec.Pick(4, 40), genBursts, runBursts)
 }
